@@ -437,6 +437,11 @@ def judge_grid_level(ctx, sink, mk_case, expect_quadkeys=None, expect_complete=F
     # areas
     if areas:
         try:
+            # history: the caller normalises the array of an EARLIER request in place (areas as fractions of the total);
+            # the request judged below is the next one
+            a0 = ctx.region.get_cell_area()
+            if isinstance(a0, numpy.ndarray) and a0.size and a0.dtype.kind == 'f':
+                a0 /= a0.sum()
             A = [float(a) for a in ctx.region.get_cell_area()]
         except Exception as e:
             sink.fail(f'QuadtreeGrid2D.get_cell_area|{type(e).__name__}|{src}', f'{type(e).__name__}: {e}', mk_case(0))
@@ -773,6 +778,19 @@ def run_catalog(case, sink):
                 if sorted(ctx.quadkeys) != sorted(q for q, _ in exp_leaves) and not clause_failed:
                     sink.fail('QuadtreeGrid2D.from_catalog|differs-from-reference-refinement|any',
                               desc + f' expected {[q for q, _ in exp_leaves]}', one)
+                # ---- the same refinement with the magnitudes option (a magnitude grid above every event's magnitude, and one
+                #      below): the option labels the magnitude axis, the refinement counts ALL events of the catalog
+                for mg in ([5.5, 6.5], [4.0, 4.5]):
+                    try:
+                        rm = QuadtreeGrid2D.from_catalog(cat, t, zoom=z, magnitudes=numpy.array(mg))
+                        qm = sorted(str(q) for q in rm.quadkeys)
+                    except Exception as e:
+                        sink.fail(f'QuadtreeGrid2D.from_catalog|{type(e).__name__}|magnitudes-option', f'magnitudes={mg}: {type(e).__name__}: {e}; ' + desc, one)
+                        continue
+                    sink.evals += 1
+                    if qm != sorted(ctx.quadkeys):
+                        sink.fail('QuadtreeGrid2D.from_catalog|leaves-depend-on-the-magnitudes-option|magnitudes-option',
+                                  f'magnitudes={mg}: leaves {qm}; without the option: ' + desc, one)
                 # ---- direct calls of the recursive worker from other start tiles
                 for start in ('1', '12'):
                     qk, num = [], []
